@@ -14,6 +14,8 @@ RULES = {
     "C11.R6": "the dynamic weight path stays in the autograd graph: no no_grad / set_grad_enabled / inference_mode context and no .detach() / .data around the quantization of self.weight in qweight, forward or qforward",
     "C11.R9": "the twin's parameters keep their own requires_grad flags: from_module copies weight and bias under no_grad and does nothing else to them (rule C08.R4 re-checked: a blanket requires_grad_ makes the bias follow the weight's flag)",
     "C11.R10": "what a forward saved for its backward is not rewritten: the activation-scale buffers, which the modules hand as they are to the activations they quantize (and the linear function saves), are replaced by calibration, never written in place",
+    "C11.R12": "a sum evaluated block by block covers every row: a loop over `range(n // k)` that addresses blocks `[i * k : (i + 1) * k]` is followed by the handling of the `n % k` remaining rows (or iterates over ceil-divided / stepped ranges) - in the functions the linear backward reaches and in the kernels",
+    "C11.R11": "function-level interceptions keep the graph: a wrapper registered for a torch function runs ABOVE autograd, so whatever it returns is either the result of an autograd Function (`X.apply(...)`), of a differentiable library call, or of the function re-issued on other arguments - never a quantized tensor it assembled itself from payloads",
     "C11.R7": "the linear backward contracts dequantized values: no raw payload (._data) enters a matmul there (unscaled codes accumulate beyond the float16 range and would be rounded with another scale order than the forward)",
     "C11.R8": "any input layout: the linear backward flattens the incoming gradient and the saved tensors with reshape, never with view",
     "C11.R3": "no staleness: qweight is a plain property that re-quantizes self.weight on every access while unfrozen",
@@ -51,6 +53,8 @@ def run(chk):
         c08.copy_rule(AliasedCheck(chk, {"C08.R4": "C11.R9"}))
         from . import c13
         c13.saved_scale_mutation(chk, "C11.R10")
+        wrappers_keep_graph(chk)
+        block_loops_cover(chk)
     raw_payload_backward(chk)
     # R4
     n = 0
@@ -297,3 +301,109 @@ def raw_payload_backward(chk):
     vs = views_on_inputs(bwd, saved)
     chk.require("C11.R8", site, not vs, f"QTensorLinear.backward flattens gO and the saved tensors with reshape ({[U(v)[:40] for v in vs]})", "QTensorLinear.backward", "view on a saved tensor or gradient",
                 "a non-contiguous input (x.transpose(1, 2)) to an unfrozen quantized linear: backward raises `view size is not compatible` where the float module's backward works")
+
+
+def wrappers_keep_graph(chk):
+    """C11.R11.  `register_qtensor_func` wrappers are called from __torch_function__: autograd has not recorded anything yet.  A wrapper that builds a
+    QBytesTensor / QBitsTensor from `x._data` returns a leaf: no gradient reaches x (the aten-level handlers, called below autograd, may do so)."""
+    from ..registries import handlers
+    repo = chk.repo
+    qt = repo.cls("QTensor")
+    ctor_names = {c.name for c in [qt] + repo.subclasses(qt)}
+    n = 0
+    for h in handlers(repo)["qfunc"]:
+        n += 1
+        try:
+            ps = paths_of(h.fn)
+        except AnalysisError as e:
+            chk.unknown("C11.R11", f"{h.mi.rel}:{h.fn.lineno}", f"{h.name}: paths not enumerated ({e})")
+            continue
+        for p in ps:
+            if p.end[0] != "return" or p.end[1] is None:
+                continue
+            built = [U(c.func) for c in ast.walk(p.end[1]) if isinstance(c, ast.Call) and (U(c.func) in ctor_names or U(c.func).split(".")[0] in ctor_names and U(c.func).endswith(".create"))]
+            chk.require("C11.R11", f"{h.mi.rel}:{p.end[2]}", not built, f"{h.name} (wrapper of {sorted(h.ops)[:2]}) returns `{U(p.end[1])[:60]}`: no quantized tensor assembled above autograd ({built})", h.name,
+                        "wrapper assembles a quantized tensor above autograd", "a module whose forward goes through this function with an input that requires grad (QConv2d with padding_mode='reflect' and quantized activations for F.pad): "
+                        "the output and the weight gradient are exact and no gradient reaches the input")
+    chk.floor("C11.R11", n, 3, "function wrappers")
+
+
+_BLOCK_LOOP_EXAMPLE = """
+def drops_tail(g, x, k):
+    acc = 0
+    n = g.shape[0]
+    for i in range(n // k):
+        acc = acc + g[i * k:(i + 1) * k].t() @ x[i * k:(i + 1) * k]
+    return acc
+
+def covers_by_step(g, x, k):
+    acc = 0
+    for s in range(0, g.shape[0], k):
+        acc = acc + g[s:s + k].t() @ x[s:s + k]
+    return acc
+
+def covers_with_remainder(g, x, k):
+    acc = 0
+    n = g.shape[0]
+    for i in range(n // k):
+        acc = acc + g[i * k:(i + 1) * k].t() @ x[i * k:(i + 1) * k]
+    if n % k:
+        acc = acc + g[n - n % k:].t() @ x[n - n % k:]
+    return acc
+"""
+
+
+def _tail_dropping_loops(fn):
+    """`for i in range(N // K)` loops whose body indexes with `i * K` while nothing in the function mentions the remainder `N % K`, a ceiling division
+    or a stepped range over N"""
+    out = []
+    src = U(fn) if False else ast.unparse(fn)
+    for n in ast.walk(fn):
+        if not (isinstance(n, ast.For) and isinstance(n.iter, ast.Call) and U(n.iter.func) == "range" and len(n.iter.args) == 1 and isinstance(n.target, ast.Name)):
+            continue
+        a = n.iter.args[0]
+        if not (isinstance(a, ast.BinOp) and isinstance(a.op, ast.FloorDiv)):
+            continue
+        N_, K_ = ast.unparse(a.left), ast.unparse(a.right)
+        i = n.target.id
+        blocks = any(isinstance(x, ast.BinOp) and isinstance(x.op, ast.Mult) and {ast.unparse(x.left), ast.unparse(x.right)} == {i, K_} for b in n.body for x in ast.walk(b))
+        if not blocks:
+            continue
+        # a SUM over the blocks: something that does not depend on the loop variable is accumulated into (acc += ..., acc = acc + ..., acc.addmm_(...));
+        # a loop that fills one output slot per block (a packing loop writing column `col`) is a layout matter, with its own divisibility precondition
+        def mentions_i(e):
+            return any(isinstance(x, ast.Name) and x.id == i for x in ast.walk(e))
+        accumulates = False
+        for b in n.body:
+            for x in ast.walk(b):
+                if isinstance(x, ast.AugAssign) and isinstance(x.op, (ast.Add, ast.Sub)) and not mentions_i(x.target):
+                    accumulates = True
+                elif isinstance(x, ast.Assign) and len(x.targets) == 1 and not mentions_i(x.targets[0]) and isinstance(x.value, ast.BinOp) and isinstance(x.value.op, ast.Add) \
+                        and ast.unparse(x.targets[0]) in (ast.unparse(x.value.left), ast.unparse(x.value.right)):
+                    accumulates = True
+                elif isinstance(x, ast.Call) and isinstance(x.func, ast.Attribute) and x.func.attr in ("add_", "addmm_", "addmv_", "addbmm_", "baddbmm_", "index_add_") and not mentions_i(x.func.value):
+                    accumulates = True
+        if not accumulates:
+            continue
+        handled = f"{N_} % {K_}" in src or "ceil(" in src or f"-{N_} // {K_}" in src or f"({N_} + {K_} - 1) // {K_}" in src
+        if not handled:
+            out.append(n)
+    return out
+
+
+def block_loops_cover(chk):
+    tree = ast.parse(_BLOCK_LOOP_EXAMPLE)
+    v = {f.name: len(_tail_dropping_loops(f)) for f in tree.body}
+    if v != {"drops_tail": 1, "covers_by_step": 0, "covers_with_remainder": 0}:
+        raise AnalysisError(f"block-loop detector misjudges its built-in examples: {v}")
+    repo = chk.repo
+    n = 0
+    for mi in repo.modules.values():
+        if not (mi.rel.startswith("optimum/quanto/tensor/") or mi.rel.startswith("optimum/quanto/library/")):
+            continue
+        for fn in [x for x in ast.walk(mi.tree) if isinstance(x, ast.FunctionDef)]:
+            n += 1
+            for lp in _tail_dropping_loops(fn):
+                chk.bad("C11.R12", f"{mi.rel}:{lp.lineno}", fn.name, "block loop drops the remaining rows", f"NOT: `for {lp.target.id} in {U(lp.iter)}` in {fn.name} visits whole blocks only and nothing handles the remainder",
+                        "a QLinear with quantized activations trained on 5000 flattened rows (e.g. an input of shape (5, 1000, in)): the weight gradient misses the last 904 rows (relative error 0.47) while input and bias gradients are exact")
+    chk.ok("C11.R12", "optimum/quanto/tensor + library", f"{n} functions scanned: no block loop that drops a remainder")
